@@ -31,8 +31,8 @@ ASSUMPTIONS = [
     'text round trip: coefficients below EQ_TOLERANCE are not printed by __str__, so equality after a plain-text cycle is required up to such terms (exact for all other terms)',
 ]
 OPEN_STATEMENTS = [
-    'for INTEGER coefficients CoefOK is discharged (coef_contract_int) up to the agreement of the float table with the exact integer model, which the run checks on the real float(); for decimal / exponent / complex coefficient texts: parse_print_roundtrip / text_file_roundtrip are proved under the contract CoefOK (Python float()/complex() read the format() text of every printed coefficient back; no white space, brackets, colon or leading + in that text): the contract itself is checked on the real functions by the correspondence run, not proved',
-    'canonical-form hypothesis (simplify cls key = (1, key)) of the round-trip theorems: keys stored by the operator classes satisfy it (C01); it is a hypothesis here',
+    'for INTEGER coefficients CoefOK is discharged (coef_contract_int; parse_print_roundtrip_int is the end-to-end round trip for integer-coefficient operators with no contract and no canonical-form hypothesis) up to the agreement of the float table with the exact integer model, which the run checks on the real float(); for purely imaginary INTEGER coefficients (2j, -13j) it is discharged up to one complex() table entry (coef_contract_imag_int: syntax and the sign handling of the parser are proved), likewise for Gaussian integers printed as (a+bj) / (a-bj) (coef_contract_gauss_int); for decimal / exponent / complex coefficient texts: parse_print_roundtrip / text_file_roundtrip are proved under the contract CoefOK (Python float()/complex() read the format() text of every printed coefficient back; no white space, brackets, colon or leading + in that text): the contract itself is checked on the real functions by the correspondence run, not proved',
+    'canonical-form hypothesis (simplify cls key = (1, key)) of the round-trip theorems: discharged for every key of the form _simplify(t) of the four savable classes (canonical_form_discharged: _simplify is idempotent with factor 1; roundtrip_ok_of_simplified builds RoundTripOK without it); that the classes only store _simplify outputs is C01',
     'MolecularData.save / load: only the attribute encode / decode table (None <-> False sentinel, int(), float()) is modelled and proved (molecular_data_attribute_table, compared with the real round trip for every scalar attribute); geometry / atoms / arrays / file handling are covered by the three-cycle oracle only; h5py is a contract',
     'marshal is a contract (load(dump(x)) = x); the binary round trip theorem is stated over the value handed to marshal.dump',
 ]
